@@ -172,9 +172,26 @@ fn dup_of(n: usize) -> Duplicate {
     [Duplicate::None, Duplicate::Error, Duplicate::Warn, Duplicate::Info, Duplicate::Debug, Duplicate::Trace, Duplicate::All][n]
 }
 
+/// a writer whose output is observed from outside: a FileLogWriter by the size of its file, a SyslogWriter by the
+/// datagrams that arrive on the unix socket it is connected to
 struct FlwProbe {
     name: String,
     path: std::path::PathBuf,
+    sock: Option<(std::os::unix::net::UnixDatagram, std::cell::Cell<u64>)>,
+}
+impl FlwProbe {
+    fn level(&self) -> u64 {
+        match &self.sock {
+            None => std::fs::metadata(&self.path).map(|m| m.len()).unwrap_or(0),
+            Some((sock, seen)) => {
+                let mut buf = [0u8; 4096];
+                while sock.recv(&mut buf).is_ok() {
+                    seen.set(seen.get() + 1);
+                }
+                seen.get()
+            }
+        }
+    }
 }
 
 pub fn run_lg(id: &str, toks: &[&str]) -> String {
@@ -206,8 +223,25 @@ pub fn run_lg(id: &str, toks: &[&str]) -> String {
                         .max_level(max)
                         .try_build()
                         .unwrap();
-                    flw_probes.push(FlwProbe { name: hex(name.as_bytes()), path: dir.join(format!("{base}.log")) });
+                    flw_probes.push(FlwProbe { name: hex(name.as_bytes()), path: dir.join(format!("{base}.log")), sock: None });
                     logger = logger.add_writer(&name, Box::new(flw));
+                }
+                "s" => {
+                    use flexi_logger::writers::{SyslogConnection, SyslogFacility, SyslogLineHeader, SyslogWriter};
+                    std::fs::create_dir_all(&dir).unwrap();
+                    let path = dir.join(format!("s{}.sock", flw_probes.len()));
+                    let sock = std::os::unix::net::UnixDatagram::bind(&path).unwrap();
+                    sock.set_nonblocking(true).unwrap();
+                    let w = SyslogWriter::builder(
+                        SyslogConnection::try_datagram(&path).unwrap(),
+                        SyslogLineHeader::Rfc3164,
+                        SyslogFacility::UserLevel,
+                    )
+                    .max_log_level(max)
+                    .build()
+                    .unwrap();
+                    flw_probes.push(FlwProbe { name: hex(name.as_bytes()), path, sock: Some((sock, std::cell::Cell::new(0))) });
+                    logger = logger.add_writer(&name, w);
                 }
                 _ => panic!("writer kind"),
             }
@@ -236,7 +270,7 @@ pub fn run_lg(id: &str, toks: &[&str]) -> String {
                 let module = opt_unhex(p[3]).map(|b| ustr(&b));
                 let msg = ustr(&unhex(p[4]));
                 journal.lock().unwrap().clear();
-                let sizes: Vec<u64> = flw_probes.iter().map(|f| std::fs::metadata(&f.path).map(|m| m.len()).unwrap_or(0)).collect();
+                let sizes: Vec<u64> = flw_probes.iter().map(FlwProbe::level).collect();
                 capture_reset();
                 let r = catch_unwind(AssertUnwindSafe(|| {
                     log.log(
@@ -261,7 +295,7 @@ pub fn run_lg(id: &str, toks: &[&str]) -> String {
                     }
                     let mut fl: Vec<String> = vec![];
                     for (f, before) in flw_probes.iter().zip(sizes.iter()) {
-                        let after = std::fs::metadata(&f.path).map(|m| m.len()).unwrap_or(0);
+                        let after = f.level();
                         fl.push(format!("{}{}", f.name, if after > *before { "+" } else { "-" }));
                     }
                     format!(
